@@ -1,5 +1,5 @@
 """Driver core: sharded harness execution, crash/hang attribution, violation keys, known findings, evidence."""
-import os, sys, re, json, time, subprocess, tempfile, threading, fnmatch, shutil, signal
+import os, sys, re, json, time, hashlib, subprocess, tempfile, threading, fnmatch, shutil, signal
 from concurrent.futures import ThreadPoolExecutor
 from . import build
 
@@ -20,6 +20,7 @@ class Result:
         self.inconclusive = []
         self.cases_done = 0
         self.procs = 0
+        self.other = {}       # tag -> list of field lists (harness-specific lines)
         self.lock = threading.Lock()
 
     def stat(self, name, dflt=0):
@@ -45,6 +46,10 @@ class Result:
             self.viol.append({'key': parts[1], 'case': int(parts[2]), 'msg': parts[3], 'replay': dict(ctx, case=int(parts[2]))})
         elif tag == 'INCONCLUSIVE' and len(parts) >= 3:
             self.inconclusive.append({'case': int(parts[1]), 'why': parts[2], 'harness': ctx.get('label')})
+        elif tag in ('DONE', 'HANG'):
+            pass
+        elif tag.isupper() and len(parts) >= 2:
+            self.other.setdefault(tag, []).append(parts[1:])
 
 
 _SAN_RE = re.compile(r'ERROR: (AddressSanitizer|ThreadSanitizer|LeakSanitizer|MemorySanitizer): ([A-Za-z0-9_-]+)')
@@ -73,6 +78,8 @@ def crash_key(stderr, rc, exe=None):
         return 'san:ubsan:%s:%s' % (_norm_ub(m.group(4)), func or where)
     if ms:
         kind = ms.group(2)
+        if kind == 'attempting':
+            kind = 'bad-free' if 'attempting free' in stderr else 'double-free' if 'double-free' in stderr else kind
         if kind == 'SEGV' or kind == 'FPE' or kind == 'BUS' or kind == 'ILL':
             kind = 'signal-' + kind
         return 'san:%s:%s:%s' % (ms.group(1).replace('Sanitizer', '').lower(), kind, func or 'unknown')
@@ -159,7 +166,7 @@ class Runner:
                         res.inconclusive.append({'case': case, 'why': 'CPU budget hit once, not on re-run', 'harness': label})
             else:
                 key = crash_key(err, rc, exe)
-                rep = os.path.join(OUT, 'report-%s-%s-%d.txt' % (self.prop, label, case))
+                rep = os.path.join(OUT, 'report-%s-%s-%d.txt' % (self.prop, (label or 'h').replace('/', '_'), case))
                 try:
                     open(rep, 'w').write(err[-20000:])
                 except Exception:
@@ -241,7 +248,7 @@ def finish(prop, tier, seed, level, res, coverage, assumptions, t0, runner=None,
     os.makedirs(OUT, exist_ok=True)
     for key, vs in sorted(seen.items()):
         v = vs[0]
-        rp = os.path.join(OUT, 'replay-%s-%s.json' % (prop, re.sub(r'[^A-Za-z0-9_.-]+', '_', key)[:80]))
+        rp = os.path.join(OUT, 'replay-%s-%s-%s.json' % (prop, re.sub(r'[^A-Za-z0-9_.-]+', '_', key)[:70], hashlib.sha1(key.encode()).hexdigest()[:8]))
         json.dump({'property': prop, 'key': key, 'msg': v['msg'], 'occurrences': len(vs), 'tier': tier, 'replay': v.get('replay'), 'other_cases': [x['case'] for x in vs[1:20]]}, open(rp, 'w'), indent=1)
         print('VIOLATION property=%s replay=%s' % (prop, rp))
         print('  key=%s cases=%d first: %s' % (key, len(vs), v['msg'][:700]))
